@@ -625,9 +625,16 @@ pub open spec fn nx(n: CN, p: bool) -> Tree decreases n {
         CN::Inner(l, t, e) => mk(l, nx(t.node, p != t.neg), nx(e.node, p != e.neg)),
     }
 }
+#[verifier::inline]
 pub open spec fn ex(c: CE, p: bool) -> Tree { nx(c.node, p != c.neg) }
 /// the function denoted by an edge, as a plain BDD term
+#[verifier::inline]
 pub open spec fn tv(c: CE) -> Tree { nx(c.node, c.neg) }
+/// value of the function denoted by edge `c` under `env`: `semc(c, env) == sem(tv(c), env)` (lemma_semc).
+/// Quantified postconditions are stated with `semc` and triggered on its tag-free core `sem(nx(c.node, false), env)`,
+/// so that they fire for every edge pointing to the same node, whatever its tag.
+#[verifier::inline]
+pub open spec fn semc(c: CE, env: Env) -> bool { c.neg != sem(nx(c.node, false), env) }
 /// the variable set denoted by the NODE of `c` (the algorithms ignore the tag of a variable-set edge; a positive
 /// cube is always an uncomplemented edge, for which `vsv(c) == tv(c)`)
 pub open spec fn vsv(c: CE) -> Tree { nx(c.node, false) }
@@ -712,12 +719,23 @@ pub broadcast proof fn lemma_nx_neq(a: CN, b: CN, q: bool)
     requires nwf(a), nwf(b), a != b,
     ensures #[trigger] nx(a, q) != #[trigger] nx(b, q),
 { if nx(a, q) == nx(b, q) { lemma_nx_inj(a, b, q); } }
-/// a node and its complement never denote the same BDD
-pub broadcast proof fn lemma_nx_pol(a: CN, b: CN, q: bool)
-    requires nwf(a), nwf(b),
-    ensures #[trigger] nx(a, q) != #[trigger] nx(b, !q),
-{ lemma_atl(a, q); lemma_atl(b, !q); }
-pub broadcast group ce_lemmas { lemma_nx_nmk, lemma_nwf_nmk, lemma_nbelow_nmk, lemma_sem_nx, lemma_nwf_wf, lemma_nx_top }
+/// normal-form nodes under different polarities never denote the same BDD
+pub broadcast proof fn lemma_nx_pol(a: CN, b: CN, qa: bool, qb: bool)
+    requires nwf(a), nwf(b), qa != qb,
+    ensures #[trigger] nx(a, qa) != #[trigger] nx(b, qb),
+{ lemma_atl(a, qa); lemma_atl(b, qb); }
+pub proof fn lemma_semc(c: CE, env: Env)
+    ensures semc(c, env) == sem(tv(c), env),
+{ lemma_sem_nx(c.node, c.neg, env); }
+/// Shannon expansion at the level of `semc`: the tag-free core of a node is the if-then-else of its two child EDGES
+pub broadcast proof fn lemma_bsem_nmk(l: u32, t: CE, e: CE, env: Env)
+    ensures #[trigger] sem(nx(nmk(l, t, e), false), env) == (if env(l as int) { semc(t, env) } else { semc(e, env) }),
+{ lemma_sem_nx(t.node, false != t.neg, env); lemma_sem_nx(e.node, false != e.neg, env); }
+/// what the apply algorithms need: one unfolding step of each recursive spec function over `nmk` (no polarity-carrying
+/// `nx(n, p)` terms arise from these)
+pub broadcast group ce_core { lemma_bsem_nmk, lemma_nwf_nmk, lemma_nbelow_nmk }
+/// link to the plain-BDD lemma libraries (complementation, wf / top / below of the expansion)
+pub broadcast group ce_tree { lemma_sem_mk, lemma_nx_nmk, lemma_sem_nx, lemma_wf_mk, lemma_below_mk, lemma_nwf_wf, lemma_nx_top }
 pub broadcast group ce_inj_lemmas { lemma_nx_neq, lemma_nx_pol }
 
 // ---------- canonicity (C01): equal functions <=> identical normal-form diagrams <=> equal handles ----------
@@ -1059,25 +1077,25 @@ pub open spec fn aq_decode(o: u8) -> Option<(u8, u8)> {
 // ---------- postconditions = per-operator cache invariants (the meaning of a cache key) ----------
 pub open spec fn res_top_ok2(r: CE, a: CE, b: CE) -> bool { ctop(r) >= ctop(a) || ctop(r) >= ctop(b) }
 pub open spec fn bin_post(op: u8, f: CE, g: CE, n: int, r: CE) -> bool {
-    okc(r, n) && res_top_ok2(r, f, g) && forall|env: Env| #[trigger] sem(tv(r), env) == op_sem(op, sem(tv(f), env), sem(tv(g), env))
+    okc(r, n) && res_top_ok2(r, f, g) && forall|env: Env| #![trigger sem(nx(r.node, false), env)] semc(r, env) == op_sem(op, semc(f, env), semc(g, env))
 }
 pub open spec fn ite_post(f: CE, g: CE, h: CE, n: int, r: CE) -> bool {
     okc(r, n) && (ctop(r) >= ctop(f) || ctop(r) >= ctop(g) || ctop(r) >= ctop(h))
-    && forall|env: Env| #[trigger] sem(tv(r), env) == (if sem(tv(f), env) { sem(tv(g), env) } else { sem(tv(h), env) })
+    && forall|env: Env| #![trigger sem(nx(r.node, false), env)] semc(r, env) == (if semc(f, env) { semc(g, env) } else { semc(h, env) })
 }
 pub open spec fn quant_post(q: u8, f: CE, vs: CE, n: int, r: CE) -> bool {
-    okc(r, n) && ctop(r) >= ctop(f) && forall|env: Env| #[trigger] sem(tv(r), env) == qsem(q, tv(f), vsv(vs), env)
+    okc(r, n) && ctop(r) >= ctop(f) && forall|env: Env| #![trigger sem(nx(r.node, false), env)] semc(r, env) == qsem(q, tv(f), vsv(vs), env)
 }
 pub open spec fn apply_quant_post(q: u8, op: u8, f: CE, g: CE, vs: CE, n: int, r: CE) -> bool {
-    okc(r, n) && res_top_ok2(r, f, g) && forall|env: Env| #[trigger] sem(tv(r), env) == qsem2(q, op, tv(f), tv(g), vsv(vs), env)
+    okc(r, n) && res_top_ok2(r, f, g) && forall|env: Env| #![trigger sem(nx(r.node, false), env)] semc(r, env) == qsem2(q, op, tv(f), tv(g), vsv(vs), env)
 }
 pub open spec fn restrict_post(f: CE, vars: CE, n: int, r: CE) -> bool {
-    okc(r, n) && ctop(r) >= ctop(f) && forall|env: Env| #[trigger] sem(tv(r), env) == sem(tv(f), cenv(tv(vars), env))
+    okc(r, n) && ctop(r) >= ctop(f) && forall|env: Env| #![trigger sem(nx(r.node, false), env)] semc(r, env) == semc(f, cenv(tv(vars), env))
 }
 pub open spec fn tviews(s: Seq<CE>) -> Seq<Tree> { s.map_values(|c: CE| tv(c)) }
 pub open spec fn all_ok<E: Edge>(s: Seq<E>, n: int) -> bool { forall|i: int| 0 <= i < s.len() ==> okc((#[trigger] s[i]).cv(), n) }
 pub open spec fn subst_post(f: CE, s: Seq<CE>, n: int, r: CE) -> bool {
-    okc(r, n) && forall|env: Env| #[trigger] sem(tv(r), env) == sem(tv(f), senv(tviews(s), env))
+    okc(r, n) && forall|env: Env| #![trigger sem(nx(r.node, false), env)] semc(r, env) == semc(f, senv(tviews(s), env))
 }
 /// the substitution registered under a substitution id (ASSUMED: ids are unique per substitution object, a fact about the
 /// global call history; `new_substitution_id` hands out fresh ids)
@@ -1118,7 +1136,7 @@ pub open spec fn cpopped(c: CE, until: int) -> CE decreases c {
 // ---------- units: crates/oxidd-rules-bdd/src/complement_edge/mod.rs ----------
 mod complement_edge {
 use super::*;
-broadcast use {leaf_lemmas, ce_lemmas, ce_inj_lemmas};
+broadcast use {ce_core, ce_tree, ce_inj_lemmas};
 //@fn file=crates/oxidd-rules-bdd/src/complement_edge/mod.rs path=fn:not_owned ret=r props=C02
 //@spec
     ensures r.cv() == cflip(e.cv()),
@@ -1188,8 +1206,7 @@ fn next(&mut self) -> (res: Option<Borrowed<'a, E>>)
         // the tag-moving normal form: a complemented then-edge is pushed to the incoming edge and the else-edge
         && res->Ok_0.cv() == (if t.cv() == e.cv() { t.cv() } else { cmk(neg(t.cv()), level, cwith(t.cv(), false), cxor(e.cv(), neg(t.cv()))) })
         // ... which denotes the Shannon node over the two operands (or the operand itself if they are equal)
-        && tv(res->Ok_0.cv()) == (if tv(t.cv()) == tv(e.cv()) { tv(t.cv()) } else { mk(level, tv(t.cv()), tv(e.cv())) })
-        && forall|env: Env| #[trigger] sem(tv(res->Ok_0.cv()), env) == (if env(level as int) { sem(tv(t.cv()), env) } else { sem(tv(e.cv()), env) }),
+        && forall|env: Env| #![trigger sem(nx(res->Ok_0.cv().node, false), env)] semc(res->Ok_0.cv(), env) == (if env(level as int) { semc(t.cv(), env) } else { semc(e.cv(), env) }),
 //@end
 //@fn file=crates/oxidd-rules-bdd/src/complement_edge/mod.rs path=fn:terminal_and props=C02,C06
 //@spec
@@ -1235,7 +1252,7 @@ impl<E: Edge, N: InnerNode<E>> ReducedOrNew<E, N> {
 
 mod apply_rec {
 use super::*;
-broadcast use {leaf_lemmas, ce_lemmas};
+broadcast use {ce_core};
 //@fn file=crates/oxidd-rules-bdd/src/complement_edge/apply_rec.rs path=fn:apply_bin nodecr expect=R5:1 props=C02,C06
 //@spec
     requires is_nat(OP), edge_ok::<M::Edge>(), okc(f.cv(), manager.num_levels_spec()), okc(g.cv(), manager.num_levels_spec()),
@@ -1258,7 +1275,7 @@ where M: Manager<EdgeTag = EdgeTag, Terminal = BCDDTerminal> + HasApplyCache<M, 
 //@spec
     requires edge_ok::<M::Edge>(), okc(lhs.cv(), manager.num_levels_spec()), okc(rhs.cv(), manager.num_levels_spec()),
     ensures res is Ok ==> okc(res->Ok_0.cv(), manager.num_levels_spec())
-        && forall|env: Env| #[trigger] sem(tv(res->Ok_0.cv()), env) == prop_and(sem(tv(lhs.cv()), env), sem(tv(rhs.cv()), env)),
+        && forall|env: Env| #![trigger sem(nx(res->Ok_0.cv().node, false), env)] semc(res->Ok_0.cv(), env) == prop_and(semc(lhs.cv(), env), semc(rhs.cv(), env)),
 //@end
 //@fn file=crates/oxidd-rules-bdd/src/complement_edge/apply_rec.rs path=impl:BooleanFunction~for~BCDDFunction<F>/fn:or_edge selfcall=Self::> props=C02
 //@header
@@ -1267,7 +1284,7 @@ where M: Manager<EdgeTag = EdgeTag, Terminal = BCDDTerminal> + HasApplyCache<M, 
 //@spec
     requires edge_ok::<M::Edge>(), okc(lhs.cv(), manager.num_levels_spec()), okc(rhs.cv(), manager.num_levels_spec()),
     ensures res is Ok ==> okc(res->Ok_0.cv(), manager.num_levels_spec())
-        && forall|env: Env| #[trigger] sem(tv(res->Ok_0.cv()), env) == prop_or(sem(tv(lhs.cv()), env), sem(tv(rhs.cv()), env)),
+        && forall|env: Env| #![trigger sem(nx(res->Ok_0.cv().node, false), env)] semc(res->Ok_0.cv(), env) == prop_or(semc(lhs.cv(), env), semc(rhs.cv(), env)),
 //@end
 //@fn file=crates/oxidd-rules-bdd/src/complement_edge/apply_rec.rs path=impl:BooleanFunction~for~BCDDFunction<F>/fn:nand_edge selfcall=Self::> props=C02
 //@header
@@ -1276,7 +1293,7 @@ where M: Manager<EdgeTag = EdgeTag, Terminal = BCDDTerminal> + HasApplyCache<M, 
 //@spec
     requires edge_ok::<M::Edge>(), okc(lhs.cv(), manager.num_levels_spec()), okc(rhs.cv(), manager.num_levels_spec()),
     ensures res is Ok ==> okc(res->Ok_0.cv(), manager.num_levels_spec())
-        && forall|env: Env| #[trigger] sem(tv(res->Ok_0.cv()), env) == prop_nand(sem(tv(lhs.cv()), env), sem(tv(rhs.cv()), env)),
+        && forall|env: Env| #![trigger sem(nx(res->Ok_0.cv().node, false), env)] semc(res->Ok_0.cv(), env) == prop_nand(semc(lhs.cv(), env), semc(rhs.cv(), env)),
 //@end
 //@fn file=crates/oxidd-rules-bdd/src/complement_edge/apply_rec.rs path=impl:BooleanFunction~for~BCDDFunction<F>/fn:nor_edge props=C02
 //@header
@@ -1285,7 +1302,7 @@ where M: Manager<EdgeTag = EdgeTag, Terminal = BCDDTerminal> + HasApplyCache<M, 
 //@spec
     requires edge_ok::<M::Edge>(), okc(lhs.cv(), manager.num_levels_spec()), okc(rhs.cv(), manager.num_levels_spec()),
     ensures res is Ok ==> okc(res->Ok_0.cv(), manager.num_levels_spec())
-        && forall|env: Env| #[trigger] sem(tv(res->Ok_0.cv()), env) == prop_nor(sem(tv(lhs.cv()), env), sem(tv(rhs.cv()), env)),
+        && forall|env: Env| #![trigger sem(nx(res->Ok_0.cv().node, false), env)] semc(res->Ok_0.cv(), env) == prop_nor(semc(lhs.cv(), env), semc(rhs.cv(), env)),
 //@end
 //@fn file=crates/oxidd-rules-bdd/src/complement_edge/apply_rec.rs path=impl:BooleanFunction~for~BCDDFunction<F>/fn:xor_edge props=C02
 //@header
@@ -1294,7 +1311,7 @@ where M: Manager<EdgeTag = EdgeTag, Terminal = BCDDTerminal> + HasApplyCache<M, 
 //@spec
     requires edge_ok::<M::Edge>(), okc(lhs.cv(), manager.num_levels_spec()), okc(rhs.cv(), manager.num_levels_spec()),
     ensures res is Ok ==> okc(res->Ok_0.cv(), manager.num_levels_spec())
-        && forall|env: Env| #[trigger] sem(tv(res->Ok_0.cv()), env) == prop_xor(sem(tv(lhs.cv()), env), sem(tv(rhs.cv()), env)),
+        && forall|env: Env| #![trigger sem(nx(res->Ok_0.cv().node, false), env)] semc(res->Ok_0.cv(), env) == prop_xor(semc(lhs.cv(), env), semc(rhs.cv(), env)),
 //@end
 //@fn file=crates/oxidd-rules-bdd/src/complement_edge/apply_rec.rs path=impl:BooleanFunction~for~BCDDFunction<F>/fn:equiv_edge selfcall=Self::> props=C02
 //@header
@@ -1303,7 +1320,7 @@ where M: Manager<EdgeTag = EdgeTag, Terminal = BCDDTerminal> + HasApplyCache<M, 
 //@spec
     requires edge_ok::<M::Edge>(), okc(lhs.cv(), manager.num_levels_spec()), okc(rhs.cv(), manager.num_levels_spec()),
     ensures res is Ok ==> okc(res->Ok_0.cv(), manager.num_levels_spec())
-        && forall|env: Env| #[trigger] sem(tv(res->Ok_0.cv()), env) == prop_equiv(sem(tv(lhs.cv()), env), sem(tv(rhs.cv()), env)),
+        && forall|env: Env| #![trigger sem(nx(res->Ok_0.cv().node, false), env)] semc(res->Ok_0.cv(), env) == prop_equiv(semc(lhs.cv(), env), semc(rhs.cv(), env)),
 //@end
 //@fn file=crates/oxidd-rules-bdd/src/complement_edge/apply_rec.rs path=impl:BooleanFunction~for~BCDDFunction<F>/fn:imp_edge props=C02
 //@header
@@ -1312,7 +1329,7 @@ where M: Manager<EdgeTag = EdgeTag, Terminal = BCDDTerminal> + HasApplyCache<M, 
 //@spec
     requires edge_ok::<M::Edge>(), okc(lhs.cv(), manager.num_levels_spec()), okc(rhs.cv(), manager.num_levels_spec()),
     ensures res is Ok ==> okc(res->Ok_0.cv(), manager.num_levels_spec())
-        && forall|env: Env| #[trigger] sem(tv(res->Ok_0.cv()), env) == prop_imp(sem(tv(lhs.cv()), env), sem(tv(rhs.cv()), env)),
+        && forall|env: Env| #![trigger sem(nx(res->Ok_0.cv().node, false), env)] semc(res->Ok_0.cv(), env) == prop_imp(semc(lhs.cv(), env), semc(rhs.cv(), env)),
 //@end
 //@fn file=crates/oxidd-rules-bdd/src/complement_edge/apply_rec.rs path=impl:BooleanFunction~for~BCDDFunction<F>/fn:imp_strict_edge props=C02
 //@header
@@ -1321,7 +1338,7 @@ where M: Manager<EdgeTag = EdgeTag, Terminal = BCDDTerminal> + HasApplyCache<M, 
 //@spec
     requires edge_ok::<M::Edge>(), okc(lhs.cv(), manager.num_levels_spec()), okc(rhs.cv(), manager.num_levels_spec()),
     ensures res is Ok ==> okc(res->Ok_0.cv(), manager.num_levels_spec())
-        && forall|env: Env| #[trigger] sem(tv(res->Ok_0.cv()), env) == prop_imp_strict(sem(tv(lhs.cv()), env), sem(tv(rhs.cv()), env)),
+        && forall|env: Env| #![trigger sem(nx(res->Ok_0.cv().node, false), env)] semc(res->Ok_0.cv(), env) == prop_imp_strict(semc(lhs.cv(), env), semc(rhs.cv(), env)),
 //@end
 //@fn file=crates/oxidd-rules-bdd/src/complement_edge/apply_rec.rs path=impl:BooleanFunction~for~BCDDFunction<F>/fn:not_edge props=C02
 //@header
@@ -1330,7 +1347,7 @@ where M: Manager<EdgeTag = EdgeTag, Terminal = BCDDTerminal> + HasApplyCache<M, 
 //@spec
     requires okc(edge.cv(), manager.num_levels_spec()),
     ensures res is Ok ==> okc(res->Ok_0.cv(), manager.num_levels_spec())
-        && forall|env: Env| #[trigger] sem(tv(res->Ok_0.cv()), env) == !sem(tv(edge.cv()), env),
+        && forall|env: Env| #![trigger sem(nx(res->Ok_0.cv().node, false), env)] semc(res->Ok_0.cv(), env) == !semc(edge.cv(), env),
 //@end
 //@fn file=crates/oxidd-rules-bdd/src/complement_edge/apply_rec.rs path=impl:BooleanFunction~for~BCDDFunction<F>/fn:not_edge_owned props=C02
 //@header
@@ -1339,7 +1356,7 @@ where M: Manager<EdgeTag = EdgeTag, Terminal = BCDDTerminal> + HasApplyCache<M, 
 //@spec
     requires okc(edge.cv(), _manager.num_levels_spec()),
     ensures res is Ok ==> okc(res->Ok_0.cv(), _manager.num_levels_spec())
-        && forall|env: Env| #[trigger] sem(tv(res->Ok_0.cv()), env) == !sem(tv(edge.cv()), env),
+        && forall|env: Env| #![trigger sem(nx(res->Ok_0.cv().node, false), env)] semc(res->Ok_0.cv(), env) == !semc(edge.cv(), env),
 //@end
 //@fn file=crates/oxidd-rules-bdd/src/complement_edge/apply_rec.rs path=impl:BooleanFunction~for~BCDDFunction<F>/fn:ite_edge props=C02
 //@header
@@ -1348,7 +1365,7 @@ where M: Manager<EdgeTag = EdgeTag, Terminal = BCDDTerminal> + HasApplyCache<M, 
 //@spec
     requires edge_ok::<M::Edge>(), okc(if_edge.cv(), manager.num_levels_spec()), okc(then_edge.cv(), manager.num_levels_spec()), okc(else_edge.cv(), manager.num_levels_spec()),
     ensures res is Ok ==> okc(res->Ok_0.cv(), manager.num_levels_spec())
-        && forall|env: Env| #[trigger] sem(tv(res->Ok_0.cv()), env) == (if sem(tv(if_edge.cv()), env) { sem(tv(then_edge.cv()), env) } else { sem(tv(else_edge.cv()), env) }),
+        && forall|env: Env| #![trigger sem(nx(res->Ok_0.cv().node, false), env)] semc(res->Ok_0.cv(), env) == (if semc(if_edge.cv(), env) { semc(then_edge.cv(), env) } else { semc(else_edge.cv(), env) }),
 //@end
 //@fn file=crates/oxidd-rules-bdd/src/complement_edge/apply_rec.rs path=impl:BooleanFunction~for~BCDDFunction<F>/fn:var_edge props=C02,C03
 //@header
@@ -1357,26 +1374,26 @@ where M: Manager<EdgeTag = EdgeTag, Terminal = BCDDTerminal> + HasApplyCache<M, 
 //@spec
     requires (var as int) < manager.num_levels_spec(),
     ensures res is Ok ==> okc(res->Ok_0.cv(), manager.num_levels_spec())
-        && forall|env: Env| #[trigger] sem(tv(res->Ok_0.cv()), env) == env(manager.var_to_level_spec(var as int)),
+        && forall|env: Env| #![trigger sem(nx(res->Ok_0.cv().node, false), env)] semc(res->Ok_0.cv(), env) == env(manager.var_to_level_spec(var as int)),
 //@end
 //@fn file=crates/oxidd-rules-bdd/src/complement_edge/apply_rec.rs path=impl:BooleanFunction~for~BCDDFunction<F>/fn:f_edge props=C02
 //@header
 fn f_edge<M>(manager: &M) -> (res: M::Edge)
 where M: Manager<EdgeTag = EdgeTag, Terminal = BCDDTerminal> + HasApplyCache<M, BCDDOp>, M::InnerNode: HasLevel,
 //@spec
-    ensures res.cv() == ct(true), forall|env: Env| #[trigger] sem(tv(res.cv()), env) == false,
+    ensures res.cv() == ct(true), forall|env: Env| semc(res.cv(), env) == false,
 //@end
 //@fn file=crates/oxidd-rules-bdd/src/complement_edge/apply_rec.rs path=impl:BooleanFunction~for~BCDDFunction<F>/fn:t_edge props=C02
 //@header
 fn t_edge<M>(manager: &M) -> (res: M::Edge)
 where M: Manager<EdgeTag = EdgeTag, Terminal = BCDDTerminal> + HasApplyCache<M, BCDDOp>, M::InnerNode: HasLevel,
 //@spec
-    ensures res.cv() == ct(false), forall|env: Env| #[trigger] sem(tv(res.cv()), env) == true,
+    ensures res.cv() == ct(false), forall|env: Env| semc(res.cv(), env) == true,
 //@end
 //@fn file=crates/oxidd-rules-bdd/src/complement_edge/apply_rec.rs path=impl:BooleanFunction~for~BCDDFunction<F>/fn:eval_edge/fn:inner rename=eval_edge__inner ret=r props=C02
 //@spec
     requires cwf(edge.cv()),
-    ensures r == sem(ex(edge.cv(), complement), |l: int| !choices.spec_contains(l)),
+    ensures r == (complement != semc(edge.cv(), |l: int| !choices.spec_contains(l))),
     decreases edge.cv(),
 //@end
 } // mod apply_rec
